@@ -918,6 +918,10 @@ def gen_open_history(rng):
 #   goal:    ['u', a, b]  A = B  |  ['c', name, args]  name(args)  |  ['as', front, t]  |  ['re', t]  |  ['ra', t]
 #            control (round 5): ['cut'] | ['fail'] | ['or', A, B]  ( A ; B ) | ['if', C, T, E]  ( C -> T ; E )
 #            | ['ifthen', C, T]  ( C -> T ) | ['not', C]  \+ ( C )      with A, B, C, T, E lists of goals ([] = true)
+#            a goal ['as', front, t, 'py'] / ['re', t, 'py'] / ['ra', t, 'py'] (t = name(args) written out) is issued through a
+#            PYTHON PREDICATE registered with register_function: the source goal is py_assertz_<name>(args) etc., and the
+#            Python function calls yp.assert_fact(yp.atom(name), [the argument objects it received]) / yp.retract /
+#            yp.retractall - the clause's own Variable objects, bound at that moment.  The model is the same goal.
 #   queries: [[name, args over 0..nq-1, nq]]   run one after the other to exhaustion on the same engine
 #   reads:   [[name, arity]]                   stored facts printed at the end (match_dynamic with new variables)
 # The program text is compiled by the real compiler; the model runs the same clauses (Engine/RunDbProg.v).
@@ -953,8 +957,75 @@ def pl_goal(g, nilq=None):
         _QNIL[0] = False
         _NILQ[0] = None
 
+PY_OPS = {'as': None, 're': 'retract', 'ra': 'retractall'}
+
+def py_goal(g):
+    """(operation, name, args) if the goal is issued through a registered Python predicate, else None"""
+    if g[0] not in PY_OPS or g[-1] != 'py':
+        return None
+    t = g[2] if g[0] == 'as' else g[1]
+    if t[0] == 'a' and t[1] != '[]':
+        name, args = t[1], []
+    elif t[0] == 'f' and t[2] and t[1] != '.':
+        name, args = t[1], t[2]
+    else:
+        return None
+    op = ('asserta' if g[1] else 'assertz') if g[0] == 'as' else PY_OPS[g[0]]
+    return op, name, args
+
+def py_predicates(case):
+    out = set()
+    for c in case['clauses']:
+        for g in flat_goals(c['body']):
+            pg = py_goal(g)
+            if pg:
+                out.add((pg[0], pg[1]))
+    return sorted(out)
+
+def register_py_predicates(yp, case):
+    """Python predicates that update the database through the API with the argument objects they are called with"""
+    def make(op, name):
+        def pred(*args):
+            if op == 'assertz':
+                yp.assert_fact(yp.atom(name), list(args))
+                yield False
+            elif op == 'asserta':
+                yp.assert_fact(yp.atom(name), list(args), False)
+                yield False
+            elif op == 'retract':
+                for _ in yp.retract(yp.functor(name, list(args)) if args else yp.atom(name)):
+                    yield False
+            else:
+                for _ in yp.retractall(yp.functor(name, list(args)) if args else yp.atom(name)):
+                    yield False
+        return pred
+    for op, name in py_predicates(case):
+        yp.register_function('py_%s_%s' % (op, name), make(op, name), arity=-1)
+
+def decorate_py(rng, case, p=0.6):
+    """a copy of the dbprog case in which a share p of the database goals with a written-out term go through Python predicates"""
+    import json
+    case = json.loads(json.dumps(case))
+    def dec(gs):
+        for g in gs:
+            if g[0] in ('or', 'if', 'ifthen', 'not'):
+                for sub in g[1:]:
+                    dec(sub)
+            elif g[0] in PY_OPS and rng.random() < p:
+                g.append('py')
+                if py_goal(g) is None:
+                    g.pop()
+    for c in case['clauses']:
+        dec(c['body'])
+    case['py'] = True
+    return case
+
 def _pl_goal(g):
     k = g[0]
+    pg = py_goal(g)
+    if pg:
+        op, name, args = pg
+        return pl_term(['f', 'py_%s_%s' % (op, name), args] if args else ['a', 'py_%s_%s' % (op, name)])
     if k == 'u':
         return '%s = %s' % (pl_term(g[1]), pl_term(g[2]))
     if k == 'c':
@@ -1113,6 +1184,7 @@ def prog_run_impl(case):
             return {'end': 'too-large', 'queries': []}       # D13: CPython's limit of 20 nested blocks; not a database matter
         raise
     yp.load_script_from_string(code)
+    register_py_predicates(yp, case)
     out_q = []
     count = [0]
     real_assert = yp.assert_fact
@@ -1484,6 +1556,16 @@ def dbprog_corpus():
                    ('m', 1, [v(0)], [['ifthen', [['re', f('p', v(0))]], [['as', True, f('q', v(0))]]]]),
                    ('n', 1, [v(0)], [['or', [['ifthen', [['c', 'p', [v(0)]]], [['as', False, f('q', v(0))]]]], [['as', False, f('q', z)]]]])],
                   [['init', [], 0], ['m', [v(0)], 1], ['n', [v(0)], 1], ['m', [v(0)], 1], ['m', [v(0)], 1], ['n', [v(0)], 1]], [['p', 1], ['q', 1]]))
+    # Python predicates (register_function) that update the database with the argument objects they receive from compiled
+    # code: what is stored is what the clause variables denote at that moment:  m :- p(X), py_assertz_q(who(X)), ..., fail.  m.
+    L.append(case([('init', 0, [], [['as', False, f('p', a)], ['as', False, f('p', f('f', b))], ['as', False, f('p', I(1))]]),
+                   ('m', 1, [], [['c', 'p', [v(0)]], ['as', False, f('q', f('who', v(0))), 'py'], ['as', True, f('r', v(0), v(0)), 'py'], ['fail']]),
+                   ('m', 0, [], []),
+                   ('n', 2, [], [['c', 'q', [v(0)]], ['re', f('r', v(1), v(1)), 'py'], ['as', False, f('p', f('g', v(0), v(1))), 'py'],
+                                 ['ra', f('q', v(0)), 'py'], ['fail']]),
+                   ('n', 0, [], [])],
+                  [['init', [], 0], ['m', [], 0], ['n', [], 0]], [['p', 1], ['q', 1], ['r', 2]]))
+    L[-1]['py'] = True
     # [] stored by compiled code, asked for through the API after a clear() (and the other way round)
     nil = ['a', '[]']
     c = case([('init', 0, [], [['as', False, f('p', nil)], ['as', False, f('p', f('f', nil))]]),
